@@ -56,6 +56,13 @@ def structured_unitary(rng, d, kind):
         u[0, 0], u[0, d - 1] = c, -np.conj(s_)
         u[d - 1, 0], u[d - 1, d - 1] = s_, c
         return u
+    if kind == "near_identity":
+        # a rotation by 1e-4 .. 5e-3: the operator is "almost" diagonal
+        # (|U_ii| = 1 - O(theta^2)), its off-diagonal part is O(theta)
+        from scipy.linalg import expm
+        k = rand_herm(rng, d)
+        k /= np.linalg.norm(k, 2)
+        return expm(1j * 10 ** rng.uniform(-4, -2.3) * k)
     if kind == "block":
         u = np.eye(d, dtype=complex)
         if d >= 2:
